@@ -2,11 +2,11 @@
     behaviour of the req/rep router model (any numbers of requestors and repliers, any
     registration order, any Ready/Pending/Err answers, any frames incl. forged routing tags,
     any HashMap / StreamMap iteration order).
-    PARTIAL: the order / at-most-once clauses for requests and the "to the right requestor,
-    exactly once" clause for replies are stated as executable predicates (ReqRepSpec.c02_state_ok,
-    obs_c02_ok) that the judge evaluates on every implementation trace and on the model state;
-    they are not yet theorems. *)
-Require Import Selium.Base Selium.PubSub Selium.ReqRep Selium.ReqRepSpec Selium.P_ReqRep.
+    PARTIAL: one clause remains an executable predicate evaluated on every implementation trace
+    and on the model state (ReqRepSpec.c02_state_ok), not a theorem: "a discarded reply never
+    deserved a still-connected requestor".  Liveness of delivery (a bound replier is eventually
+    offered the buffered request) is checked on drained traces (obs_no_request_stranded). *)
+Require Import Selium.Base Selium.PubSub Selium.ReqRep Selium.ReqRepSpec Selium.P_ReqRep Selium.P_ReqRepOrder.
 Open Scope N_scope.
 
 (** no reply is dropped or overwritten because a requestor is slow: every reply pulled from the
@@ -24,6 +24,40 @@ Theorem c02_origin_unforgeable : forall tr s, rrun rinit tr = Some s ->
   exists k m0, In (k, m0) (h_reqs_pulled (rgh s)) /\ m = tag_req k m0.
 Proof. exact rr_requests_tagged. Qed.
 Print Assumptions c02_origin_unforgeable.
+
+(** requests: what repliers were handed (start_send Ok), in hand-over order, is a subsequence of
+    what the requestors sent, in pull order, each tagged with its requestor's true key: at most
+    once per request, in the sending order, nothing altered but the tag *)
+Theorem c02_requests_in_order_at_most_once : forall tr s, rrun rinit tr = Some s ->
+  Subseq (map snd (h_reqs_sent (rgh s))) (map (fun p => tag_req (fst p) (snd p)) (h_reqs_pulled (rgh s))).
+Proof. exact rr_requests_in_order. Qed.
+Print Assumptions c02_requests_in_order_at_most_once.
+
+(** replies: what was delivered, as (requestor, frame) in delivery order, is a subsequence of what
+    the replier's emissions deserve -- for each emitted reply, in emission order, the requestor
+    that holds the key in its tag and the reply with the tag stripped and everything else intact
+    ([deserved]); a reply with a missing, unknown or malformed tag deserves nothing.  So every
+    reply is delivered at most once, to the requestor whose request it answers and to nobody
+    else, in the order the replier emitted them *)
+Theorem c02_replies_to_the_right_requestor_in_order : forall tr s, rrun rinit tr = Some s ->
+  Subseq (h_reps_routed (rgh s)) (deserving (rgh s) (h_reps_pulled (rgh s))).
+Proof. exact rr_replies_in_order. Qed.
+Print Assumptions c02_replies_to_the_right_requestor_in_order.
+
+(** "exactly once when a replier is bound and stays bound": every request pulled from a requestor
+    is handed to a replier, refused by that replier's own sink, superseded in the one-request
+    buffer, or still in the buffer -- and a request is superseded only while NO replier is bound *)
+Theorem c02_requests_accounted : forall tr s, rrun rinit tr = Some s ->
+  List.length (h_reqs_pulled (rgh s)) =
+  (List.length (h_reqs_sent (rgh s)) + List.length (h_reqs_refused (rgh s)) + List.length (h_reqs_dropped (rgh s))
+   + match b_req s with Some _ => 1 | None => 0 end)%nat.
+Proof. exact rr_requests_accounted. Qed.
+Print Assumptions c02_requests_accounted.
+
+Theorem c02_never_superseded_while_bound : forall tr s, rrun rinit tr = Some s ->
+  forall srv m, In (srv, m) (h_reqs_dropped (rgh s)) -> srv = None.
+Proof. exact rr_never_superseded_while_bound. Qed.
+Print Assumptions c02_never_superseded_while_bound.
 
 (** Non-vacuity: a slow requestor, two replies, a forged tag *)
 Example c02_example :
